@@ -12,6 +12,7 @@ def replay(case):
 
 def run(tier):
     run = Run('C17', tier)
+    run.exhaustive = False     # contains sampled parts (seeds / draw streams / a command table), see explanation
     run.explanation = (
         "Engine X in enumerative mode over an argv grammar: sub-command by sub-command, numbers are solver-chosen in small legal "
         "ranges, options are solver-chosen booleans and graph arguments come from menus (complete/grid/torus/empty/shift/path/tree/"
